@@ -307,6 +307,30 @@ pub fn run(ctx: &Ctx) {
 		ctx.sample(|| "bytes: from_utf16be on every 16-bit unit, 121 boundary pairs, lengths 0..9; from_utf32be on every value 0..=0x110400, 2^k boundaries, lengths 0..9".to_string());
 	}
 
+	// --- 2b. every ordered pair and many triples from a boundary character set, every type (multi-character effects)
+	if ctx.replay.as_ref().map_or(true, |r| r.workload == "pairs") {
+		let set: Vec<char> = vec![
+			'\u{0}', '\u{1f}', ' ', '*', '?', 'A', '\u{7e}', '\u{7f}', '\u{80}', '\u{ff}', '\u{100}', '\u{1ff}', '\u{7ff}', '\u{800}', '\u{d7ff}', '\u{e000}',
+			'\u{ff00}', '\u{ff01}', '\u{fffd}', '\u{fffe}', '\u{ffff}', '\u{10000}', '\u{1f600}', '\u{fffff}', '\u{100000}', '\u{10ffff}',
+		];
+		let set: Vec<char> = if miri { set.into_iter().step_by(5).collect() } else { set };
+		let case = CaseId::new("pairs", 0, 0);
+		for k in TEXT_KINDS {
+			for a in &set {
+				for b in &set {
+					let s: String = [*a, *b].iter().collect();
+					check_text(ctx, &case, k, &s);
+					ctx.count("enum:boundary_pairs");
+					if !miri {
+						let t: String = [*b, 'x', *a, *b].iter().collect();
+						check_text(ctx, &case, k, &t);
+						ctx.count("enum:boundary_pairs");
+					}
+				}
+			}
+		}
+	}
+
 	// --- 3. random multi-character strings mixing in- and out-of-alphabet characters
 	let do_random = ctx.replay.as_ref().map_or(true, |r| r.workload == "random");
 	if do_random {
